@@ -117,6 +117,14 @@ CarryIsOne == stage # "start" /\ carried => dig = << 1 >> /\ se = se0 + 1
 NoDigitsInvented == stage # "start" /\ ~carried /\ opt.round = "truncate" =>
                        dig = StripTrailing(SubSeq(d0, 1, IF opt.max > 0 /\ opt.max < Len(d0) THEN opt.max ELSE Len(d0)))
 
+(* the length arithmetic of Bounds (C09's design model) is the length of these bytes; on a carry the notation was *)
+(* chosen on the float's exponent se0 while the digits sit at se0 + 1, which OutLen does not describe             *)
+BND == INSTANCE Bounds
+LenAgrees ==
+    stage = "done" /\ ~carried =>
+        Len(out) = BND!OutLen(Len(dig), se, [min |-> opt.min, max |-> opt.max, neg |-> opt.neg, pos |-> opt.pos, trim |-> opt.trim],
+                             [noexp |-> fl.noexp, reqexp |-> fl.reqexp, reqsign |-> fl.reqsign])
+
 (* trimming removes exactly ".0" *)
 TrimExact ==
     stage = "done" /\ opt.trim /\ ~Sc.hasPoint => (Len(dig) <= se + 1 /\ ~sci) \/ (sci /\ Len(dig) = 1 /\ opt.min <= 1)
